@@ -440,3 +440,26 @@ PROPS["C04"]["runs"].append({"engine": "vt", "build": "alt", "quick": 568, "thor
                              "what": "E-A fault enumeration on the alt build (async-trait actors)"})
 for _k in ("C01", "C03", "C04"):
     PROPS[_k]["level_note"] += " The alt-build runs repeat the E-A (and for C01 the E-T) scenarios with the async-trait feature on."
+
+# ---- additions made after the second wave of seeded changes (DESIGN.md section 7)
+_EXTRA2 = {
+    "C01": "Half of the thread-local subjects are Send actors driven through ractor's Send->thread-local blanket adapter.",
+    "C02": ("Senders also use `call` (both engines) and `call_and_forward` (E-A) as sends. One E-A scenario in eight is 'deep': 300-1200 messages queued at once "
+            "while pg notifications keep arriving at the subject; every send must be handled."),
+    "C04": "stop/drain/kill are requested while the child is idle, parked in a message handler, in post_start, or in its supervision handler (568 / 124 cases).",
+    "C06": "In half of the E-A scenarios a successor takes the subject's name as soon as the subject is Stopping; where_is must still yield the successor after the subject has fully stopped (exit cleanup runs once).",
+    "C07": "On E-T one scenario in forty spawns a thread-local actor with spawn_instant, sends to it and drains it before its start has run (spawner thread held by a blocker actor, or racing).",
+    "C09": "A fifth of the calls go through a DerivedActorRef.",
+    "C10": "A third of the holders have a slow post_stop, a third of the terminations are followed by a late second request (drain/stop/kill), and on E-T one spawn in four is a thread-local actor contending for the same names.",
+    "C11": ("One E-T scenario in four is a two-writer scenario: (B) threads join [exiting actor, own actor] into fresh groups in one call while that actor exits; an all-scopes monitor must see per group "
+            "as many Leaves as Joins for it (0 or 1) and one Join for the other; (C) one thread takes actors out of their only group while another joins them to fresh groups, then all exit and nothing may remain."),
+    "C12": "A kill timer that was not aborted takes its target down at its due time whatever the target is doing; an abort issued right after creation (no await in between) prevents delivery for every period.",
+    "C14": "Custom routing: once a resize has been processed, jobs run on a worker inside the requested pool also while workers beyond it are still draining.",
+    "C16": "One E-T scenario in four is 'steady': a fast subscriber present from the start, a publisher pacing itself on it, and another OS thread subscribing/stopping further actors; the steady subscriber must get every element once, in order.",
+    "C17": "The right and the wrong cookie are 90 characters long and differ only in their tail.",
+    "C18": "Added clause ready-for-loser (decided from each node's own event order and the real election function); half of the links run through a fragmenting, delaying relay so that handshakes overlap.",
+    "C19": "node engine: the server's cap is 4096 bytes and hostile lengths include values between that cap and the library default.",
+    "C20": "In a third of the scenarios the first target is a spawn_instant actor still in pre_start while the link authenticates and synchronises.",
+}
+for _k, _t in _EXTRA2.items():
+    PROPS[_k]["level_note"] = (PROPS[_k].get("level_note", "") + " " + _t).strip()
